@@ -310,10 +310,11 @@ EXTENDED = {
            "constructors, rank mismatches) — the graph's value and the generated code; special values; loopy calls with colliding "
            "callee names; C compile errors of generated code are classified. Lean: the API construction layer (binop_sound, "
            "where_sound, reduce_sound, full/eye/arange/csr_matmul_sound, api_emits_own_name over a regenerated table) and the loopy "
-           "STATEMENT GENERATOR (LoopyGen.lean): loopygen_sound_partial / loopygen_checks_partial / ..._any_schedule on the "
-           "decidable reduction-free fragment (inlined, stored and named temporaries, outputs using each other); the model's kernel "
-           "equals the real kernel's read-back statement by statement on 100 % of the programs (reductions, Boolean constants, "
-           "empty results are modelled and tied but not yet inside the proved fragment). A single real-code call that does not "
+           "STATEMENT GENERATOR (LoopyGen.lean): loopygen_sound_red_partial / loopygen_checks_red_partial / ..._any_schedule on the "
+           "decidable fragment (inlined, stored and named temporaries, outputs using each other, chains of reductions with constant "
+           "or data-dependent hoisted bounds, 0-d results); the model's kernel equals the real kernel's read-back statement by "
+           "statement on 100 % of the programs, 82 % of them inside the proved fragment (Boolean constants and empty results are "
+           "modelled and tied but outside it). A single real-code call that does not "
            "finish (300 s / 16 GB) is reported as a violation by the watchdog of harness/main.py.",
     "C02": "Extended: theorems now also for stack, concatenate, reshape (C and F, total), pad (incl. symbolic axes), einsum "
            "(lower_einsum_correct), advanced indexing (lower_advindex_correct, partial: segment computation tied by text), binary "
